@@ -42,6 +42,7 @@ GENERATORS = [
     ('gen_py_nth', 'PyNth.lean'),
     ('gen_py_combinators', 'PyCombinators.lean'),
     ('gen_py_handlers', 'PyHandlers.lean'),
+    ('gen_py_popen', 'PyPseudoOpen.lean'),
 ]
 
 
